@@ -2,6 +2,7 @@ package builder
 
 import (
 	"fmt"
+	"sort"
 	"strings"
 
 	"github.com/grafana/cog/internal/ast"
@@ -332,7 +333,12 @@ func ComposeBuilders(selector Selector, config CompositionConfig) RewriteRule {
 			composableBuilders[panelType] = append(composableBuilders[panelType], builder)
 		}
 
-		for panelType, buildersForType := range composableBuilders {
+		// sorted: the order of the composed builders must not depend on map iteration order
+		panelTypes := tools.Keys(composableBuilders)
+		sort.Strings(panelTypes)
+
+		for _, panelType := range panelTypes {
+			buildersForType := composableBuilders[panelType]
 			composedBuilders, err := composeBuilderForType(schemas, builders, config, panelType, sourceBuilder, buildersForType)
 			if err != nil {
 				return nil, fmt.Errorf("could not apply ComposeBuilders builder veneer: %w", err)
